@@ -78,6 +78,8 @@ impl<'a, R: Read> Lexer<Scanner<'a, R>> {
     }
 
     pub fn read(&mut self) -> Result<&LexerToken, Error> {
+        #[cfg(feature = "verif-hooks")]
+        crate::verif_hooks::tick("zinc::Lexer::read");
         while !self.scanner.is_eof {
             match self.scanner.cur {
                 // Spaces
